@@ -50,6 +50,32 @@ class Ctx:
 REGISTRY = {}
 
 
+def thms_from(*modules):
+    """names of the property theorems (`theorem Cxx_…`) stated in the given property modules, with
+    their namespace, so that the audit list cannot drift from the files"""
+    import re
+    names = []
+    for mod in modules:
+        path = os.path.join(vlib.LEAN, *mod.split(".")) + ".lean"
+        if not os.path.exists(path):
+            continue
+        src = vlib.strip_lean_comments(open(path).read())
+        ns = []
+        for line in src.splitlines():
+            m = re.match(r"\s*namespace\s+(\S+)", line)
+            if m:
+                ns.append(m.group(1))
+                continue
+            m = re.match(r"\s*end\s+(\S+)", line)
+            if m and ns and ns[-1].split(".")[-1] == m.group(1).split(".")[-1]:
+                ns.pop()
+                continue
+            m = re.match(r"\s*theorem\s+((?:[A-Za-z_][\w]*\.)*C\d\d_[\w']+)", line)
+            if m and len(ns) <= 1:
+                names.append(".".join(ns + [m.group(1)]))
+    return names
+
+
 def register(prop, **kw):
     REGISTRY[prop] = kw
 
@@ -59,6 +85,9 @@ def register(prop, **kw):
 def lean_phase(ctx, spec):
     """build + audit. records obligations. returns True if all discharged."""
     import translate
+    # every fragment is regenerated on every run (the driver and other modules import them), the
+    # property's own fragments are the ones whose failure is an obligation of this check
+    translate.regenerate([f for f in translate.FRAGMENTS if f not in spec.get("fragments", ())])
     frag_ok, frag_log = translate.regenerate(spec.get("fragments", ()))
     ctx.oblige("fragments regenerated from /repo (%s)" % ",".join(spec.get("fragments", ())) if spec.get("fragments") else "no regenerated fragment needed",
                frag_ok, frag_log)
@@ -68,6 +97,10 @@ def lean_phase(ctx, spec):
     hits = vlib.lean_forbidden_scan()
     ctx.oblige("no sorry/admit/axiom/native_decide/bv_decide/implemented_by/unsafe/maxHeartbeats 0 in library", not hits, str(hits))
     thms = list(spec.get("theorems", ()))
+    if spec.get("auto_theorems", True):
+        for t in thms_from(*mods):
+            if t not in thms:
+                thms.append(t)
     all_ok = ok and not hits and frag_ok
     if ok and thms:
         axs, alog = vlib.lean_axioms(thms, mods)
